@@ -999,6 +999,8 @@ def check_C01(ctx):
     build()
     commit_design(ctx)
     st0 = run_commitio(ctx, tiered(ctx, 12, 120), tiered(ctx, 200, 400))
+    for profile in ("crashcompact", "crashsp", "pages"):
+        run_commitio(ctx, tiered(ctx, 4, 40), tiered(ctx, 200, 400), profile=profile)
     if st0["commits"] < 100:
         raise ToolError(f"vacuity: too few commits in the protocol traces: {st0}")
     runs, steps = tiered(ctx, (12, 150), (120, 300))
